@@ -426,9 +426,15 @@ def run_case(case, tier):
                     diffs = obs.compare_groups(g, h, tol=1e-7)
                     if diffs:
                         cls = "distant-part-influences"
-                        if cname == "AVR" and not same_confs:
+                        from .c06 import has_twins
+                        if cname == "AVR" and not same_confs and has_twins(a if pname == "A" else b):
+                            # the other part's labels add conformations; completing them loses atoms of residues
+                            # that share a number with an insertion-coded neighbour (known finding icode-twins-merged)
+                            cls = "twins:average-in-a-union-with-more-conformations"
+                        elif cname == "AVR" and not same_confs and len(rp.rec["names"]) > 1:
                             # the union has conformations this part does not have alone (created by the other part's
                             # alternate-location labels); the part's average is then taken over more conformations
+                            # (a part with a single state of its own is unaffected: the mean of copies is the copy)
                             cls = "distant-alt-loc-labels-change-the-average"
                         viol.append({"cls": cls, "msg": "%s %s (part %s, conformations %r) in %s (conformations %r) at %.3f A: %s" % (
                             cname, g["label"], pname, rp.rec["names"], uname, ru.rec["names"], d_real, obs.brief(diffs, 3))})
